@@ -160,7 +160,8 @@ where
     pub async fn shutdown(&mut self, max_requests: usize) -> Result<(), ConnectionError> {
         let max_id = self
             .last_accepted_stream
-            .map(|id| id + max_requests)
+            // the identifier announces the first request that will not be processed
+            .map(|id| id + max_requests.saturating_add(1))
             .unwrap_or(StreamId::FIRST_REQUEST);
 
         self.inner.shutdown(&mut self.sent_closing, max_id).await
@@ -200,7 +201,7 @@ where
                     // incoming requests not belonging to the grace interval. It's possible that
                     // some acceptable request streams arrive after rejected requests.
                     if let Some(max_id) = self.sent_closing {
-                        if s.send_id() > max_id {
+                        if s.send_id() >= max_id {
                             s.stop_sending(Code::H3_REQUEST_REJECTED.value());
                             s.reset(Code::H3_REQUEST_REJECTED.value());
                             if self.poll_requests_completion(cx).is_ready() {
